@@ -39,7 +39,8 @@ func genProtoPlan(seed uint64, thorough bool) *Plan {
 		case 10:
 			c = g.expireCmd(simEpochNs)
 		case 11:
-			c = g.pick2([][]string{{"HGETALL", g.key()}, {"SMEMBERS", g.key()}, {"HRANDFIELD", g.key(), "3", "WITHVALUES"}, {"LCS", g.key(), g.key(), "IDX"}, {"INCRBYFLOAT", g.key(), "1.5"}, {"HINCRBYFLOAT", g.key(), "f1", "0.25"}, {"CLIENT", "INFO"}, {"COMMAND", "COUNT"}, {"SMISMEMBER", g.key(), "m1", "m2"}, {"EXISTS", g.key()}, {"TYPE", g.key()}, {"PING"}, {"ECHO", "x"}, {"CLIENT", "GETNAME"}, {"SISMEMBER", g.key(), "m1"},
+			c = g.pick2([][]string{{"HGETALL", g.key()}, {"SMEMBERS", g.key()}, {"HRANDFIELD", g.key(), "3", "WITHVALUES"}, {"HRANDFIELD", g.key(), g.pick("-4", "-7", "-1"), "WITHVALUES"}, {"HRANDFIELD", g.key(), g.pick("-5", "2")}, {"SRANDMEMBER", g.key(), g.pick("-6", "3")},
+				{"HINCRBYFLOAT", g.key(), "big", g.pick("100000001", "16777217", "0.1", "1e15")}, {"INCRBYFLOAT", g.key(), g.pick("100000001.5", "16777217")}, {"LCS", g.key(), g.key(), "IDX"}, {"INCRBYFLOAT", g.key(), "1.5"}, {"HINCRBYFLOAT", g.key(), "f1", "0.25"}, {"CLIENT", "INFO"}, {"COMMAND", "COUNT"}, {"SMISMEMBER", g.key(), "m1", "m2"}, {"EXISTS", g.key()}, {"TYPE", g.key()}, {"PING"}, {"ECHO", "x"}, {"CLIENT", "GETNAME"}, {"SISMEMBER", g.key(), "m1"},
 				// nested aggregates: map -> array -> map
 				{"COMMAND", "DOCS", g.pick("get", "set", "hello", "client", "lpos", "sort", "bitfield", "nosuchcmd")}, {"COMMAND", "INFO", g.pick("get", "lmpop", "client", "exec")},
 				{"COMMAND", "DOCS", g.pick("hset", "sintercard"), g.pick("lrange", "expire")}, {"COMMAND", "LIST", "FILTERBY", "PATTERN", g.pick("h*", "s[a-m]*", "client*")}, {"COMMAND", "GETKEYS", "MSET", "a", "1", "b", "2"}})
@@ -340,6 +341,13 @@ func (c *protoChecker) compare(w *World, ra, rb *Op, i int) *Violation {
 			return &Violation{Oracle: "twins", Step: w.step, Fp: "twins:" + strings.ToLower(argv[0]) + ":error-vs-value",
 				Msg: fmt.Sprintf("%s: one protocol answered an error, the other a value: RESP%d %s / RESP%d %s", fmtArgs(argv), ra.protoAt, clipS(ra.Reply.String(), 80), rb.protoAt, clipS(rb.Reply.String(), 80))}
 		}
+		// ... and the same amount of information: what is drawn varies, how much
+		// is drawn does not (|count| entries for a negative count, pairs with
+		// WITHVALUES), so the flattened replies have equally many leaves
+		if !ra.Reply.IsErr() && leafCount(ra.Reply) != leafCount(rb.Reply) {
+			return &Violation{Oracle: "twins", Step: w.step, Fp: "twins:" + strings.ToLower(argv[0]) + ":leaf-count",
+				Msg: fmt.Sprintf("%s on equal state: the RESP%d reply carries %d values, the RESP%d reply %d:\n  %q\n  %q", fmtArgs(argv), ra.protoAt, leafCount(ra.Reply), rb.protoAt, leafCount(rb.Reply), clip(ra.Raw, 200), clip(rb.Raw, 200))}
+		}
 		return nil
 	}
 	if strings.EqualFold(argv[0], "client") || strings.EqualFold(argv[0], "select") {
@@ -368,5 +376,18 @@ func (c *protoChecker) compare(w *World, ra, rb *Op, i int) *Violation {
 }
 
 func (c *protoChecker) protoAtReply(op *Op) int { return op.protoAt }
+
+// leafCount: number of scalar values in a reply, aggregates flattened.
+func leafCount(v Value) int {
+	switch v.K {
+	case KArray, KMap, KSet, KPush:
+		n := 0
+		for _, e := range v.A {
+			n += leafCount(e)
+		}
+		return n
+	}
+	return 1
+}
 
 func (c *protoChecker) Final(w *World) *Violation { return nil }
